@@ -3,6 +3,6 @@ setup: sany
 	@/venv/bin/python -c "import pydoctor, bs4, hypothesis; print('python deps ok')"
 	@mkdir -p evidence replays
 sany:
-	@for f in spec/*.tla; do java -cp /opt/veriftools/tla/tla2tools.jar:/opt/veriftools/tla/CommunityModules-deps.jar tla2sany.SANY $$f > /tmp/sany.$$$$ 2>&1 || { cat /tmp/sany.$$$$; rm -f /tmp/sany.$$$$; exit 1; }; rm -f /tmp/sany.$$$$; done; echo "SANY ok"
+	@cd spec && for f in *.tla; do java -cp /opt/veriftools/tla/tla2tools.jar:/opt/veriftools/tla/CommunityModules-deps.jar tla2sany.SANY $$f > ../.sany.out 2>&1 || { cat ../.sany.out; rm -f ../.sany.out; exit 1; }; if grep -q "Semantic errors\|Parse Error\|\*\*\* Errors" ../.sany.out; then cat ../.sany.out; rm -f ../.sany.out; exit 1; fi; done; rm -f ../.sany.out; echo "SANY ok"
 manifest:
 	/venv/bin/python -m harness.manifest
